@@ -25,9 +25,10 @@ func init() {
 			"Added after blind round 6: an entry joins Manifest.Entries only behind a successful validation of its configuration (Save validates the current entry but writes them all; the loader takes the last one). " +
 			"Added after blind round 7: Config.Update runs the caller's function with Config.mu held exclusively; NewManifest substitutes the defaults only for a nil configuration. " +
 			"Added after blind round 8: in NewManifest the entry Current points to is the entry listed in Entries (Save validates the one and writes the other). " +
-			"Added after blind round 10: no component outside pkg/config assigns a field of the shared configuration object (what SaveManifest writes back is what was loaded or set through Update).",
+			"Added after blind round 10: no component outside pkg/config assigns a field of the shared configuration object (what SaveManifest writes back is what was loaded or set through Update). " +
+			"Added after blind round 11: no error type of pkg/config overrides errors.Is matching (the 'no manifest' and 'unreadable manifest' sentinels must stay distinguishable).",
 		NotDecided: "every assignment around the boundaries (value-level), floating-point formatting corner cases, crash during save (needs fault injection), fields that have no documented constraint.",
-		Rules:      []func(*Ctx, *Reporter){ruleC20Save, ruleC20Load, ruleC20Default, ruleC20Types, ruleC20Constraints, ruleC20Reentrancy, ruleDestructiveOps, ruleManifestEntriesValidated, ruleConfigUpdateExclusive, ruleDefaultsOnlyForNil, ruleManifestCurrentIsListed, ruleConfigWrittenOnlyInConfigPkg},
+		Rules:      []func(*Ctx, *Reporter){ruleC20Save, ruleC20Load, ruleC20Default, ruleC20Types, ruleC20Constraints, ruleC20Reentrancy, ruleDestructiveOps, ruleManifestEntriesValidated, ruleConfigUpdateExclusive, ruleDefaultsOnlyForNil, ruleManifestCurrentIsListed, ruleConfigWrittenOnlyInConfigPkg, ruleSentinelErrorsMatchByIdentity},
 	})
 }
 
